@@ -221,6 +221,7 @@ def inline_def(ip, st, f, pos, kws):
     if s2.depth > 6:
         raise U("inlining depth (recursive nested def needs a contract)")
     outs = []
+    n_exc0 = len(ip._exc_out)
     is_gen = any(isinstance(n, (ast.Yield, ast.YieldFrom)) for n in ast.walk(f.node))
     if is_gen:
         raise U("nested generator def")
@@ -235,7 +236,36 @@ def inline_def(ip, st, f, pos, kws):
             ip._exc_out.append((s3, payload))
         else:
             raise U("break/continue escaping a nested def")
+    if len(outs) > 1 and getattr(ip, "bound_guards", None) and len(ip._exc_out) == n_exc0:
+        m = merge_pure_outcomes(ip, st, outs)
+        if m is not None:
+            return m
     return outs
+
+
+def merge_pure_outcomes(ip, st, outs):
+    """the alternatives of a nested def called while the body of a quantifier is evaluated (no forking possible there): when
+    the helper is PURE on every path -- no heap cell, note or binding differs from the caller's state, nothing was raised --
+    the alternatives differ only in their path condition and result: one outcome, the caller's state, with the result
+    `ite(path condition 1, result 1, ite(...))`.  None when the helper is not of this form (the caller then refuses the fork)."""
+    from .interp import Unsupported
+    n0 = len(st.pc)
+    alts = []
+    for s3, v in outs:
+        if set(s3.heap) != set(st.heap) or any(s3.heap[k] is not st.heap[k] for k in st.heap):
+            return None
+        if s3.notes != st.notes or set(s3.env) != set(st.env) or any(s3.env[k] is not st.env[k] for k in st.env):
+            return None
+        if len(s3.pc) < n0 or any(a is not b for a, b in zip(s3.pc[:n0], st.pc)):
+            return None
+        alts.append((AND(*s3.pc[n0:]), v))
+    res = alts[-1][1]
+    try:
+        for c, v in reversed(alts[:-1]):
+            res = ip.ite_sv(c, v, res)
+    except Unsupported:
+        return None
+    return [(st, res)]
 
 
 # --------------------------------------------------------------------------- contracts
@@ -338,6 +368,9 @@ def conform(ip, st, v, ty):
         if ip.is_seq(st, v):
             # materialise: fresh list term equal to the view pointwise
             view = ip.as_view(st, v)
+            if view.items is not None and ip.reg.lst_elem[sort] in ("Int", "Real", "Bool") \
+                    and any(not isinstance(x, (Num, Bool)) for x in view.items):
+                raise Mismatch(ty)          # a list of lists / objects is not a list of numbers (another case may fit)
             t = materialise(ip, st, view, sort)
             return ip.lst_view(t)
         raise Mismatch(ty)
@@ -376,6 +409,12 @@ def conform(ip, st, v, ty):
         if isinstance(v, Fun) or (isinstance(v, Opaque) and v.sort == "Obj"):
             return v
         raise Mismatch(ty)
+    if head in ("Tree", "KeySet", "TreeMap"):
+        from .iet import conform_value          # include / exclude trees as values (pyvc/iet.py)
+        r = conform_value(ip, st, v, head)
+        if r is None:
+            raise Mismatch(ty)
+        return r
     raise U("conform to type " + ty)
 
 
